@@ -21,7 +21,7 @@ MECHANISMS = ["jaxley.modules.base:Module.init_states", "jaxley.channels.hh:HH.i
               "jaxley.channels.pospischil:CaL.init_state"]
 MECHANISMS_REQUIRED = ["jaxley.modules.base:Module.init_states"]
 REQUIRED = {"quick": {"fixed_point": 300, "r2_inf": 300, "rows_written": 60},
-            "thorough": {"fixed_point": 6000, "r2_inf": 6000, "rows_written": 1200}}
+            "thorough": {"fixed_point": 1500, "r2_inf": 1500, "rows_written": 300}}
 
 
 def cases(seed, tier):
